@@ -372,6 +372,10 @@ class OfflineDiscrete(object):
             if lv is not None:
                 env[tgt] = lv
                 return None
+            sh = self.concat_shift(v)
+            if sh is not None:
+                env[tgt] = sh
+                return None
             raise Unknown('assignment %s' % ast.unparse(st)[:70])
         if isinstance(st, ast.Expr) and isinstance(st.value, ast.Call) and isinstance(st.value.func, ast.Attribute) \
                 and isinstance(st.value.func.value, ast.Name):
@@ -405,11 +409,40 @@ class OfflineDiscrete(object):
             lv = self.list_expr(v)
             if lv is not None:
                 return self.finish(lv)
+            sh = self.concat_shift(v)
+            if sh is not None:
+                return self.finish(sh)
             raise Unknown('return %s' % ast.unparse(v)[:60])
         raise Unknown('%s: %s' % (type(st).__name__, ast.unparse(st)[:60]))
 
     def scalar(self, env):
         return Scalar(env)
+
+    def concat_shift(self, v):
+        """[c] + L[:-1]  (previous)   /   L[1:] + [c]  (next)"""
+        if not (isinstance(v, ast.BinOp) and isinstance(v.op, ast.Add)):
+            return None
+
+        def one_const(e):
+            return const_of(e.elts[0]) if isinstance(e, ast.List) and len(e.elts) == 1 else None
+
+        def half(e):
+            if isinstance(e, ast.Subscript) and isinstance(e.value, ast.Name) and isinstance(e.slice, ast.Slice) and e.slice.step is None:
+                base = self.env.get(e.value.id)
+                if base and base[0] == 'LIST':
+                    lo, hi = e.slice.lower, e.slice.upper
+                    if lo is None and hi is not None and ast.unparse(hi) == '-1':
+                        return (base[1], -1)
+                    if hi is None and lo is not None and ast.unparse(lo) == '1':
+                        return (base[1], +1)
+            return None
+        c, h = one_const(v.left), half(v.right)
+        if c is not None and h is not None and h[1] == -1:
+            return ('LIST', shift(h[0], -1, c))
+        c, h = one_const(v.right), half(v.left)
+        if c is not None and h is not None and h[1] == +1:
+            return ('LIST', shift(h[0], +1, c))
+        return None
 
     def finish(self, v):
         if v is None:
